@@ -2,27 +2,43 @@
  * C16 — bit-array backend: ba_find_first_zero / ba_find_first_set (lib/ext2fs/blkmap64_ba.c).
  *
  * Both functions carry in-place loop contracts on all five loops (bit prefix, byte loop up to 8-byte pointer
- * alignment, 64-bit word loop, byte loop, bit tail); see the VERIF_LOOP hooks in blkmap64_ba.c.  Besides the loop
- * contracts the hooks contain, per function, two VERIF_CUT (assert-then-assume of the summary "bitpos/count
- * window + ghost bit" after the word phase and after the byte phase: without the cut the base case of the last
- * loop has to be proved over the product of the paths through the four earlier loops, > 500 s) and three
- * VERIF_ANCHOR (assert pos == <invariant value>, then re-assign it: a pointer havocked by a loop contract
- * otherwise dereferences to every object of the program, 2.4M clauses instead of 0.4M).  Both are checked
- * obligations, not assumptions.  The all-properties query needs cadical (minisat > 500 s, cadical ~120 s).
+ * alignment, 64-bit word loop, byte loop, bit tail); see the VERIF_LOOP hooks in blkmap64_ba.c
+ * (hooks-pending/ba.diff).  The invariants are scalar only: the functions never write the bit array, so the ghost
+ * bit keeps its entry value verif_old_bit (tied to the array by the precondition below) and "every position in
+ * [start, cursor) has the skipped value" is stated as  verif_k in [s0, cursor) => verif_old_bit == V.
+ * Besides the loop contracts the hooks contain, per function,
+ *   - two VERIF_CUT (assert, then assume, the window/ghost summary after the word phase and after the byte
+ *     phase): the re-association (bitpos + 64 d) + (count - 64 d) == bitpos + count is then proved once instead
+ *     of inside every later obligation;
+ *   - five VERIF_ANCHOR (assert pos == <its invariant value>, then re-assign exactly that value): a no-op that
+ *     makes the points-to set of a cursor havocked by a loop contract {bit array} again; without it every *pos
+ *     is a case split over all objects of the program (3.0M clauses instead of 0.28M).
+ * Both are checked obligations, not assumptions.  Back end cadical (minisat needs > 250 s on the same formula).
  *
  * Set view: position p (start <= p <= real_end) is a member iff bit (p - start) of the bit array is 1.
  * Contract (from the property text: "answers find-first-zero / find-first-set as a set would"):
  *   returns 0      -> *out is in [start,end], is a non-member (resp. member), and every position in
  *                     [start,*out) is a member (resp. non-member)           [stated for the ghost position verif_k]
+ *                     i.e. *out is the LEAST non-member (resp. member) of [start,end]
  *   returns ENOENT -> every position in [start,end] is a member (resp. non-member)      [ghost position verif_k]
  *   no other return value; hence "ENOENT iff none" (return 0 exhibits a witness inside the range)
  *   nothing but *out is written (frame) and the ghost bit keeps its value.
- * Precondition from the call sites ext2fs_find_first_{zero,set}_generic_bmap (gen_bitmap64.c): they reject
- * cstart < bmap->start, cend > bmap->end, start > end, so bitmap->start <= start <= end <= bitmap->end
- * (<= real_end).  The contract is stated for the weaker end <= bitmap->real_end (the whole allocated array).
+ * EINVAL for bad ranges is NOT produced at this level: the backend function has no range check; the callers
+ * ext2fs_find_first_{zero,set}_generic_bmap (gen_bitmap64.c) reject cstart < bmap->start, cend > bmap->end,
+ * start > end with EINVAL before dispatching (that is the bitmap_gen units' obligation), so here
+ * bitmap->start <= start <= end <= bitmap->end (<= real_end) is a PRECONDITION.  The contract is stated for the
+ * weaker end <= bitmap->real_end (the whole allocated array).
  *
- * Pointer alignment: the array is placed at raw+misalign for all misalign in 0..7 (ba_env.h; the allocation ends exactly at the last byte the backend allocates); CBMC's
- * pointer-to-integer cast yields object-base|offset, malloc bases are 8-aligned in that encoding, so the
+ * Size cap: the array has at most BA_MAX_BITS = 512 bits (64 bytes + 1): every loop is closed by its contract, so
+ * no obligation depends on the number of iterations and the cap only bounds the size of the heap object and the
+ * width of the arithmetic the SAT solver sees (2^20 bits: same result, ~100 s).  The ghost verif_g7 = 2^n - 1
+ * (any n with 2^n - 1 > real_end - start) lets the invariant say "bitpos and count have no bits above the array
+ * size", which turns the 64-bit cursor arithmetic into n-bit arithmetic for the solver; it is a precondition on a
+ * ghost, not on the bitmap.
+ *
+ * Pointer alignment: the array is placed at raw+misalign for all misalign in 0..7 (ba_env.h; the allocation ends
+ * exactly at the last byte the backend allocates, so a word read past the end is an out-of-bounds access).  CBMC's
+ * pointer-to-integer cast yields object-base|offset with malloc bases 8-aligned (checked separately), so the
  * (uintptr_t)pos & 7 loop sees all eight alignments.
  */
 /* VERIF-UNIT
@@ -36,11 +52,14 @@
  "loop_contracts": true,
  "sources": ["lib/ext2fs/bitops.c"],
  "functions": ["lib/ext2fs/blkmap64_ba.c:ba_find_first_zero"],
- "assumes": ["bit array capped at 2^20 bits (object-size cap); geometry, contents, search range and the 8 byte-misalignments of the array otherwise symbolic",
-             "pointer-to-integer cast as modelled by CBMC (object base 8-aligned, low bits = offset)"],
- "backend": "cadical",
+ "assumes": ["bit array capped at 512 bits (object-size / arithmetic-width cap; all five loops are closed by loop contracts, no obligation depends on the cap); geometry (start, end, real_end), contents, search range and the 8 byte-misalignments of the array otherwise symbolic",
+             "precondition bitmap->start <= start <= end <= bitmap->real_end, guaranteed by the range check (EINVAL) in ext2fs_find_first_{zero,set}_generic_bmap",
+             "out does not point into the bit array (it is the caller's variable)",
+             "pointer-to-integer cast as modelled by CBMC (object base 8-aligned, low bits = offset)",
+             "needs the in-place loop contracts of hooks-pending/ba.diff (VERIF_REPO=/tmp/wt_ba until merged)"],
  "defines": ["BA_MAX_BITS=512"],
- "timeout": 600,
+ "backend": "cadical",
+ "timeout": 300,
  "native": true
 }
 */
@@ -55,35 +74,25 @@
  "loop_contracts": true,
  "sources": ["lib/ext2fs/bitops.c"],
  "functions": ["lib/ext2fs/blkmap64_ba.c:ba_find_first_set"],
- "assumes": ["bit array capped at 2^20 bits (object-size cap); geometry, contents, search range and the 8 byte-misalignments of the array otherwise symbolic",
-             "pointer-to-integer cast as modelled by CBMC (object base 8-aligned, low bits = offset)"],
- "backend": "cadical",
+ "assumes": ["bit array capped at 512 bits (object-size / arithmetic-width cap; all five loops are closed by loop contracts, no obligation depends on the cap); geometry (start, end, real_end), contents, search range and the 8 byte-misalignments of the array otherwise symbolic",
+             "precondition bitmap->start <= start <= end <= bitmap->real_end, guaranteed by the range check (EINVAL) in ext2fs_find_first_{zero,set}_generic_bmap",
+             "out does not point into the bit array (it is the caller's variable)",
+             "pointer-to-integer cast as modelled by CBMC (object base 8-aligned, low bits = offset)",
+             "needs the in-place loop contracts of hooks-pending/ba.diff (VERIF_REPO=/tmp/wt_ba until merged)"],
  "defines": ["BA_MAX_BITS=512"],
- "timeout": 600,
- "native": true
-}
-*/
-/* VERIF-UNIT
-{
- "name": "x_probe_ffz",
- "props": ["C16"],
- "level": "U",
- "tier": "wip",
- "harness": "h_ba_ffz",
- "enforce": ["ba_find_first_zero"],
- "loop_contracts": true,
- "sources": ["lib/ext2fs/bitops.c"],
- "defines": ["BA_PROBE_START01=1", "BA_MAX_BITS=128"],
  "backend": "cadical",
- "timeout": 600,
- "native": false
+ "timeout": 300,
+ "native": true
 }
 */
 #include "ba_env.h"
 
+unsigned long long verif_g7;	/* ghost: 2^n - 1 >= number of bits of the array (scan quantities have no higher bits) */
+
 static errcode_t ba_find_first_zero(ext2fs_generic_bitmap_64 bitmap, __u64 start, __u64 end, __u64 *out)
 	REQUIRES(bitmap->start <= start && start <= end && end <= bitmap->real_end)
 	REQUIRES(verif_old_bit == BIT(ARR(bitmap), verif_k))
+	REQUIRES((verif_g7 & (verif_g7 + 1)) == 0 && bitmap->real_end - bitmap->start < verif_g7)
 	ENSURES(RET == 0 || RET == ENOENT)
 	ENSURES(RET != 0 || *out >= start)
 	ENSURES(RET != 0 || *out <= end)
@@ -96,6 +105,7 @@ static errcode_t ba_find_first_zero(ext2fs_generic_bitmap_64 bitmap, __u64 start
 static errcode_t ba_find_first_set(ext2fs_generic_bitmap_64 bitmap, __u64 start, __u64 end, __u64 *out)
 	REQUIRES(bitmap->start <= start && start <= end && end <= bitmap->real_end)
 	REQUIRES(verif_old_bit == BIT(ARR(bitmap), verif_k))
+	REQUIRES((verif_g7 & (verif_g7 + 1)) == 0 && bitmap->real_end - bitmap->start < verif_g7)
 	ENSURES(RET == 0 || RET == ENOENT)
 	ENSURES(RET != 0 || *out >= start)
 	ENSURES(RET != 0 || *out <= end)
@@ -110,6 +120,7 @@ static errcode_t ba_find_first_set(ext2fs_generic_bitmap_64 bitmap, __u64 start,
 void NAME(void) \
 { \
 	build_bitmap(); \
+	verif_g7 = 2 * BA_MAX_BITS - 1; \
 	/* IN.arg = start, IN.arg2 = end of the search range */ \
 	ASSUME(IN.start <= IN.arg && IN.arg <= IN.arg2 && IN.arg2 <= IN.real_end); \
 	unsigned long long s0 = IN.arg - IN.start, e0 = IN.arg2 - IN.start; \
